@@ -65,7 +65,8 @@ theorem scale_m3_underflow (G : Sem) (hG : G.WF) (e : Int) (m : Nat) (hm1 : 2 ^ 
     calc m < 2 ^ G.p := hm2
       _ = 2 ^ (G.p - 1) * 2 ^ 1 := by rw [← Nat.pow_add]; congr 1; omega
       _ ≤ 2 ^ (G.p - 1) * 2 ^ k := Nat.mul_le_mul_left _ (Nat.pow_le_pow_right (by norm_num) hk1)
-  unfold Flt.scale Flt.new
+  rw [scale_small _ _ _ (by exact hG) (by norm_num) (by norm_num)]
+  unfold Flt.scaleCore Flt.new
   simp only [Flt.isNormal, beq_self_eq_true, Bool.not_true, Bool.false_eq_true, if_false, hm0]
   unfold Flt.normalize
   simp only [ne_eq, not_true_eq_false, if_false, hmsb, sub_self, add_zero]
@@ -107,7 +108,8 @@ theorem scale_m3 (G : Sem) (hG : G.WF) (y : Flt) (hs : y.sem = G) (hcan : y.Cano
     have hcan' : (⟨s, false, e - 3, m, .normal⟩ : Flt).Canonical := by
       rw [Flt.canonical_normal rfl]; exact ⟨he, by simp only; omega, h3, h4, Or.inl hm1⟩
     have : (⟨s, false, e, m, .normal⟩ : Flt).scale (-3) .zero = ⟨s, false, e - 3, m, .normal⟩ := by
-      unfold Flt.scale Flt.new
+      rw [scale_small _ _ _ (by exact hG) (by norm_num) (by norm_num)]
+      unfold Flt.scaleCore Flt.new
       have hm0 : m ≠ 0 := by omega
       simp only [Flt.isNormal, beq_self_eq_true, Bool.not_true, Bool.false_eq_true, if_false, hm0]
       rw [show e + -3 = e - 3 by ring]
